@@ -213,6 +213,24 @@ def collect(prop, repo):
                 if any('Zip' in ty for _f, _p, ty in fields):
                     return 'failed', what
             return f
+        def rsg():
+            src = _read(repo, 'src/utils/ready_set_go.rs')
+            toks = rxprep.strip_test_mods(tree(src))
+            body, _ = rxprep.find_fn(toks, 'ready_set_go', None)
+            creates = rxprep.find_calls(body.kids, 'create')
+            if len(creates) != 1:
+                raise rxprep.AnchorLost('Observable::create in ready_set_go')
+            cl = rxprep.parse_closure(creates[0][2].kids, src)
+            if cl is None or len(cl.body) != 1 or not cl.body[0].is_group('{'):
+                raise rxprep.AnchorLost('create closure of ready_set_go')
+            stmts = [re.sub(r'\s+', '', src[st[0].start:st[-1].end]) for st in rxprep.split_statements(cl.body[0].kids)]
+            sub = [i for i, t in enumerate(stmts) if '.inner_subscribe(' in t]
+            act = [i for i, t in enumerate(stmts) if re.fullmatch(r'f\(\)', t)]
+            if len(sub) != 1 or len(act) != 1:
+                return 'undecided', 'ready_set_go: body not recognised: %s' % stmts
+            if act[0] < sub[0]:
+                return 'failed', 'ready_set_go runs its action BEFORE subscribing: whatever the action emits is missed by the subscriber'
+        ob('ready_set_go.subscribe_before_action', 'src/utils/ready_set_go.rs', rsg)
         ob('combine_latest.definition', 'src/operators/combine_latest.rs', built_on_zip(
             'src/operators/combine_latest.rs', 'CombineLatest',
             'combine_latest is zip + map: it emits only when EVERY input has a new item, not "on each item the latest of every source"'))
